@@ -753,3 +753,16 @@ ROWS['GRAPH.EDGE*ADD'].clauses += [
      '&& (exists|i: int| 0 <= i < %s.edges@[%s]@.len() && (#[trigger] %s.edges@[%s]@[i]).sorigin() == %s)) '
      '&& (!(%s.nodes@.contains_key(%s) && %s.nodes@.contains_key(%s)) ==> %s.edges@ == %s.edges@)'
      % (_g1, _g0, _g1, _g1, _d, _g0, _d, _g0, _o, _g0, _d, _g1, _d, _g1, _d, _g1, _d, _o, _g0, _o, _g0, _d, _g1, _g0))]
+
+# FLOATVECTOR.SINE: amplitude A (top), angle velocity x (second), phase phi (third) from FLOAT, length from INTEGER (negative = 0)
+_A, _x, _phi, _n = 'top(S0.float, 0)', 'top(S0.float, 1)', 'top(S0.float, 2)', 'top(S0.int, 0)'
+row('FLOATVECTOR.SINE', ['C09', 'C15'], takes=[('float', 3), ('int', 1)], pushes=[('floatvec', None)], clauses=[
+    ('fired.value.floatvec.0', '(S0.float.len() >= 3 && S0.int.len() >= 1) ==> top(S1.floatvec, 0).values@ =~= '
+     'Seq::new((if %s > 0 { %s as nat } else { 0nat }), |i: int| sine_elem(%s, %s, %s, i as usize))' % (_n, _n, _A, _x, _phi)),
+    ('{C15}bound.alloc', '(S0.float.len() >= 3 && S0.int.len() >= 1) ==> top(S1.floatvec, 0).values@.len() <= 5')])
+FN_OVERLAYS['vector::float_vector_sine'] = dict(loops={0: '''            //bind V = let mut (\\w+) = vec!\\[\\];
+            //bind P = if let Some\\((\\w+)\\) = push_state\\.float_stack\\.pop_vec\\(3\\)
+            invariant
+                $P@.len() == 3, seq_f32(&$V).len() == ghost_iter.index@, $V@.len() == ghost_iter.index@,
+                forall|k: int| 0 <= k < ghost_iter.index@ ==> #[trigger] $V@[k] == sine_elem($P@[2], $P@[1], $P@[0], k as usize),
+'''})
